@@ -934,7 +934,8 @@ impl Callbacks for Facts {
         // constants first: building a function body whose types mention a constant (`[0u8; MAX_LEN]`) evaluates
         // that constant, which steals its mir_built
         owners.sort_by_key(|d| match tcx.def_kind(d.to_def_id()) {
-            DefKind::Const { .. } | DefKind::AssocConst { .. } | DefKind::AnonConst | DefKind::InlineConst | DefKind::Static { .. } => 0,
+            // (named ones only: the type of an anonymous constant comes from its parent's type check)
+            DefKind::Const { .. } | DefKind::AssocConst { .. } | DefKind::Static { .. } => 0,
             _ => 1,
         });
         for def in owners {
